@@ -79,6 +79,9 @@ FAMS = {
     # analytic attempt fails or times out and the numeric path must be used on the WHOLE function
     "fcubic":  ("a0*(cube(x)+1)", 1, [(0, 3), (0, 0)]),
     "fquart":  ("a0*(pow(x,4)+x)", 1, [(0, 4), (0, 1)]),
+    # coefficients of both signs with H^2 > 0 on the data range
+    "negquad": ("a0*cube(x)+a1*square(x)", 2, [(0, 3), (1, 2)]),
+    "negsq":   ("a0+a1*square(x)", 2, [(0, 0), (1, 2)]),
 }
 INTEGRABLE = ["const", "sq", "invsq", "cube", "mono1", "mono4", "invx"]   # sympy finds the antiderivative (monomials)
 # H^2 with a parameter in the exponent: sympy's antiderivative is a Piecewise with a Ne(...) guard, and the guarded (special)
@@ -749,6 +752,26 @@ def search(ctx):
         pr = params_for(rng, fam)
         jobs.append({"tag": "after-clear/%d" % t, "fam": fam, "zs": z2, "params": pr, "n": len(z2), "shape": "seq", "take": 2,
                      "delta": hx(delta), "min_nz": min_nz, "calls": [predcall(z1, "sq", [2.0]), {"op": "clear"}, predcall(z2, fam, pr)]})
+    # the same redshifts in another order after clear_data(), and on a NEW instance later in the same process: same minimum, maximum
+    # and length, different positions -- a grid or mask remembered under such a summary would be stale
+    for t in range(2 if ctx.quick else 6):
+        z1 = float_sample(rng, rng.choice([5, 8]), "sorted")
+        z2 = list(z1)
+        while z2 == z1:
+            rng.shuffle(z2)
+        z3 = list(reversed(z1))
+        fam = rng.choice(["lcdm", "cubic"])
+        pr = params_for(rng, fam)
+        jobs.append({"tag": "clear-permuted/%d" % t, "fam": fam, "zs": z2, "params": pr, "n": len(z2), "shape": "seq", "take": 2,
+                     "delta": hx(delta), "min_nz": min_nz, "calls": [predcall(z1, fam, pr), {"op": "clear"}, predcall(z2, fam, pr)]})
+        jobs.append({"tag": "new-instance-permuted/%d" % t, "fam": fam, "zs": z3, "params": pr, "n": len(z3), "shape": "unsorted",
+                     "delta": hx(delta), "min_nz": min_nz, "calls": [predcall(z3, fam, pr)]})
+    # H^2 with a negative coefficient that stays positive on the data range (closed universe, falling quadratic), analytic attempt on:
+    # whatever run_sympify decides, the prediction is that of the function
+    for fam, pr in (("negquad", [1.3, -0.3]), ("negsq", [20.0, -1.2]), ("negquad", [2.0, -0.5])):
+        zs = float_sample(rng, 5, "dups-unsorted", lo=1.01, hi=2.9)
+        jobs.append({"tag": "negative-coefficient/%s%r" % (fam, pr), "fam": fam, "zs": zs, "params": pr, "n": 5, "shape": "dups-unsorted",
+                     "delta": hx(delta), "min_nz": min_nz, "calls": [predcall(zs, fam, pr, True, tmax=5)]})
     xv = getattr(ctx, "c19_xvar", None)
     if xv is None:
         rc, out, err = esrv.run_py(ctx.scratch, IMPL, ["xvar"], timeout=300)
